@@ -26,6 +26,30 @@ impl MemTable {
         self.in_.entry(dst).or_default().push(key);
     }
 
+    /// Relationships created in this (uncommitted) transaction that start or end at `node`.
+    pub fn staged_edges_of(&self, node: InternalNodeId) -> Vec<EdgeKey> {
+        let mut edges: Vec<EdgeKey> = Vec::new();
+        for list in [self.out.get(&node), self.in_.get(&node)].into_iter().flatten() {
+            for edge in list {
+                if !edges.contains(edge) {
+                    edges.push(*edge);
+                }
+            }
+        }
+        edges
+    }
+
+    /// True when this (uncommitted) transaction deleted `node`.
+    pub fn is_node_deleted(&self, node: InternalNodeId) -> bool {
+        self.tombstoned_nodes.contains(&node)
+    }
+
+    /// True when this (uncommitted) transaction deleted `edge` and did not re-create it.
+    pub fn is_edge_deleted(&self, edge: EdgeKey) -> bool {
+        self.tombstoned_edges.contains(&edge)
+            && !self.out.get(&edge.src).is_some_and(|list| list.contains(&edge))
+    }
+
     pub fn tombstone_node(&mut self, node: InternalNodeId) {
         self.tombstoned_nodes.insert(node);
     }
